@@ -99,11 +99,16 @@ func HarnessCloseWS() {
 		callVal, callErr = c.Echo(context.Background(), tok)
 		callRet++
 	}()
+	lags := withStream && verif.Bool("consumer_lags")
+	drain := make(chan struct{})
 	if withStream {
 		go func() {
 			ch, err := c.Sub(context.Background())
 			subRet++
 			if err == nil && ch != nil {
+				if lags {
+					<-drain // values pile up in the client until after the close
+				}
 				for range ch {
 				}
 				chClosed++
@@ -114,6 +119,9 @@ func HarnessCloseWS() {
 	}
 	closerRet := 0
 	dialsAtClose := -1
+	if lags {
+		verif.Quiesce() // everything the peer sent is inside the client, unread, before the close
+	}
 	go func() {
 		verif.AtStep("close_at", verif.Bound("steps", 40))
 		closer()
@@ -121,6 +129,10 @@ func HarnessCloseWS() {
 		dialsAtClose = l.Dials()
 	}()
 	verif.Quiesce()
+	if lags {
+		close(drain)
+		verif.Quiesce()
+	}
 	verif.Assert(!verif.Crashed(), "no-panic")
 	verif.Assert(closerRet == 1, "closer-returns")
 	verif.Assert(callRet == 1, "in-flight-call-returns")
